@@ -438,7 +438,12 @@ class DbAdapter(engine.Adapter):
         elif new_ids:
             viols.append(violation("connect_only_when_allowed", "execute:second-native-connection",
                                    "execute opened %d new server-side connection(s) although a native connection exists" % len(new_ids)))
-        live = native is not None and native.srv_open and native.cli_open
+        # the statement speaks of connections the SERVICE issued and has not closed: a disconnect the client sent while the server
+        # could not receive it (server off, path cut) leaves the connection open on the server, and a later execute that re-uses the
+        # client's native connection id is then a query on a connection the service still holds (counted, not judged)
+        live = native is not None and native.srv_open
+        if ok and live and not native.cli_open:
+            LIVENESS_NOTES["execute_on_connection_only_the_client_closed"] = LIVENESS_NOTES.get("execute_on_connection_only_the_client_closed", 0) + 1
         g = self.gate(e, c)
         if ok and (g or not live):
             viols.append(violation("query_only_on_live_connection", "execute:success-despite:%s" % (g or "no-live-connection"),
